@@ -3,6 +3,7 @@ import OlVerif.Json
 import OlVerif.Unparse.StrLit
 import OlVerif.Lower.Stmt
 import OlVerif.Api.Model
+import OlVerif.Ctrl.Run
 
 namespace OlVerif
 open Lean
@@ -133,6 +134,92 @@ def opCli (j : Json) : Json :=
       ("files", .arr (res.fs.map fun (f, c) => Json.arr #[.str f, .str c]).toArray)])
   match r with | .ok j => j | .error e => errJ e
 
+/-! ### M-CTRL: skeletons, a concrete logging world, emitted trees and traces -/
+
+open Ctrl in
+partial def skOfJson (j : Json) : R Ctrl.Sk := do
+  let a ← jArr j
+  let blk (x : Json) : R (List Ctrl.Sk) := do (← jArr x).toList.mapM skOfJson
+  match (← jStr a[0]!) with
+  | "atom" => pure (.atom (← jNat a[1]!))
+  | "pass" => pure .pass
+  | "brk" => pure .brk
+  | "cont" => pure .cont
+  | "ret" => match a[1]! with
+    | .null => pure (.ret none)
+    | x => do pure (.ret (some (← jNat x)))
+  | "if" => pure (.ite (← jNat a[1]!) (← blk a[2]!) (← blk a[3]!))
+  | "while" => pure (.whl (← jNat a[1]!) (← blk a[2]!) (← blk a[3]!))
+  | "for" => pure (.for_ (← jNat a[1]!) (← blk a[2]!) (← blk a[3]!))
+  | k => throw s!"skeleton kind {k}"
+
+/-- state of the concrete world: the event log and the bookkeeping of the probes -/
+structure CSt where
+  ev : Array String := #[]
+  condCalls : List (Nat × Nat) := []
+  itCalls : List (Nat × Nat) := []
+  iters : List (Nat × Nat × Nat × Nat) := []     -- loop id ↦ (open index, length, position)
+
+def bump (l : List (Nat × Nat)) (i : Nat) : Nat × List (Nat × Nat) :=
+  let k := (l.lookup i).getD 0
+  (k, (i, k + 1) :: l.filter (·.1 != i))
+
+/-- the same deterministic schedule as `harness/gen_skel.py:World` -/
+def cworld (s : Nat) : Ctrl.World CSt where
+  atom i st :=
+    let ev := st.ev.push s!"m {i}"
+    ({ st with ev := ev }, decide ((s * 7 + i * 3 + ev.size) % 4 ≥ 2))
+  cond i st :=
+    let (k, cc) := bump st.condCalls i
+    let st := { st with ev := st.ev.push s!"c {i} {k}", condCalls := cc }
+    if k ≥ 5 then (st, false)
+    else (st, decide ((s * 2654435761 + i * 40503 + k * 9973 + s / 8) % 7 ≥ 3))
+  iterOpen i st :=
+    let (k, ic) := bump st.itCalls i
+    let n := (s + i * 5 + k) % 4
+    { st with ev := (st.ev.push s!"it {i} {k}").push s!"iter {i} {k}", itCalls := ic,
+              iters := (i, k, n, 0) :: st.iters.filter (·.1 != i) }
+  iterNext i st :=
+    match st.iters.lookup i with
+    | none => (st, false)
+    | some (k, n, j) =>
+      if j ≥ n then ({ st with ev := st.ev.push s!"next {i} {k} stop" }, false)
+      else ({ st with ev := st.ev.push s!"next {i} {k} {j}", iters := (i, k, n, j + 1) :: st.iters.filter (·.1 != i) }, true)
+  itemTruthy i st :=
+    match st.iters.lookup i with
+    | some (_, _, j) => j != 1          -- the item just produced is j - 1
+    | none => false
+  retv i st := ({ st with ev := st.ev.push s!"r {i}" }, i * 3 + (s + i) % 3, true)
+
+def sigToJson : Ctrl.Sig → Json
+  | .normal => "normal" | .brk => "brk" | .cont => "cont"
+  | .ret none => .arr #["ret", .null]
+  | .ret (some v) => .arr #["ret", (v : Nat)]
+
+def opCtrl (j : Json) : Json :=
+  let r : R Json := do
+    let cfg ← cfgOfJson (← j.getObjVal? "cfg")
+    let inFn := (← jStr (← j.getObjVal? "placement")) == "function"
+    let body ← (← jArr (← j.getObjVal? "sk")).toList.mapM skOfJson
+    let tree := exprToJson (Ctrl.emitTop cfg.ifStyle cfg.wrapper inFn body)
+    let mut runs : Array Json := #[]
+    for sj in (← jArr (← j.getObjVal? "schedules")) do
+      let s ← jNat sj
+      let W := cworld s
+      let src := Ctrl.runS W 4000 (.block body) {}
+      let ts := if inFn then Ctrl.lowerFn cfg.ifStyle cfg.wrapper body else Ctrl.lowerModule cfg.ifStyle cfg.wrapper body
+      let tgt := Ctrl.runT W 8000 (.seq ts) { st := {}, fl := fun _ => false, rv := none }
+      let srcJ := match src with
+        | some (st, sig) => Json.mkObj [("ev", .arr (st.ev.map Json.str)), ("sig", sigToJson sig)]
+        | none => Json.mkObj [("fuel", true)]
+      let tgtJ := match tgt with
+        | some (st, _) => Json.mkObj [("ev", .arr (st.st.ev.map Json.str)),
+            ("rv", match st.rv with | some v => (v : Nat) | none => Json.null)]
+        | none => Json.mkObj [("fuel", true)]
+      runs := runs.push (Json.mkObj [("s", (s : Nat)), ("src", srcJ), ("tgt", tgtJ)])
+    pure (Json.mkObj [("tree", tree), ("runs", .arr runs)])
+  match r with | .ok j => j | .error e => errJ e
+
 def handle (j : Json) : Json :=
   match j.getObjVal? "op" with
   | .ok (.str "unparse") => opUnparse j
@@ -141,6 +228,7 @@ def handle (j : Json) : Json :=
   | .ok (.str "lower") => opLower j
   | .ok (.str "api") => opApi j
   | .ok (.str "cli") => opCli j
+  | .ok (.str "ctrl") => opCtrl j
   | .ok (.str "ping") => Json.mkObj [("pong", .bool true)]
   | _ => errJ "unknown op"
 
